@@ -302,6 +302,10 @@ impl Envelope {
                     } else {
                         return Some(Err(anyhow::anyhow!("Unexpected outer signature object type.")));
                     }
+                } else {
+                    // The wrapped signature-with-metadata is not itself covered by a
+                    // (single) `'signed'` assertion, so it is not a valid signature object.
+                    return None;
                 }
 
                 let signature_metadata_envelope = signature_object_subject.unwrap_envelope().unwrap();
